@@ -156,7 +156,7 @@ def bfgs(
         grad_norm = sqrt(_dot(grad, grad))
 
         if grad_norm < tol:
-            obj = objective_fn(x) if objective_fn else grad_norm
+            obj = objective_fn(x) if objective_fn is not None else grad_norm
             return Result(x, obj, iteration, evals)
 
         # Compute search direction: d = -H @ grad (with sign adjustment)
@@ -190,12 +190,12 @@ def bfgs(
         x = x_new
         grad = grad_new
 
-        obj = objective_fn(x) if objective_fn else grad_norm
+        obj = objective_fn(x) if objective_fn is not None else grad_norm
         if report_progress(on_progress, progress_interval, iteration + 1, obj, obj, evals):
             return Result(x, obj, iteration + 1, evals, Status.FEASIBLE)
 
     grad_norm = sqrt(_dot(grad, grad))
-    obj = objective_fn(x) if objective_fn else grad_norm
+    obj = objective_fn(x) if objective_fn is not None else grad_norm
     return Result(x, obj, max_iter, evals, Status.MAX_ITER)
 
 
@@ -250,7 +250,7 @@ def lbfgs(
         grad_norm = sqrt(_dot(grad, grad))
 
         if grad_norm < tol:
-            obj = objective_fn(x) if objective_fn else grad_norm
+            obj = objective_fn(x) if objective_fn is not None else grad_norm
             return Result(x, obj, iteration, evals)
 
         # Compute search direction using two-loop recursion
@@ -312,10 +312,10 @@ def lbfgs(
         x = x_new
         grad = grad_new
 
-        obj = objective_fn(x) if objective_fn else grad_norm
+        obj = objective_fn(x) if objective_fn is not None else grad_norm
         if report_progress(on_progress, progress_interval, iteration + 1, obj, obj, evals):
             return Result(x, obj, iteration + 1, evals, Status.FEASIBLE)
 
     grad_norm = sqrt(_dot(grad, grad))
-    obj = objective_fn(x) if objective_fn else grad_norm
+    obj = objective_fn(x) if objective_fn is not None else grad_norm
     return Result(x, obj, max_iter, evals, Status.MAX_ITER)
